@@ -54,6 +54,11 @@ pub fn rule_docs(ls: &LangSpec, variant: usize, with_fix: bool) -> Vec<Value> {
     // the message uses a variable bound outside the reported node: equal texts, different messages
     json!({"id": "zed-in", "language": ls.lang, "rule": {"pattern": "zed($Z)", "inside": {"pattern": "outer($NAME, $$$REST)", "stopBy": "end"}},
            "message": "zed($Z) inside $NAME", "severity": "warning"}),
+    // what matches is decided outside `rule`: by `constraints`, and by a local utility
+    json!({"id": "cons-rule", "language": ls.lang, "rule": {"pattern": "con($C)"}, "constraints": {"C": {"regex": "^ok"}},
+           "message": "con with $C", "severity": "warning"}),
+    json!({"id": "util-rule", "language": ls.lang, "rule": {"all": [{"pattern": "uti($U)"}, {"has": {"matches": "is-answer", "stopBy": "end"}}]},
+           "utils": {"is-answer": {"kind": ls.number_kind, "regex": "^42$"}}, "message": "uti with the answer", "severity": "info"}),
   ];
   if variant % 2 == 1 {
     v[1]["note"] = json!("a note for bar");
@@ -99,6 +104,10 @@ pub fn make_text(ls: &LangSpec, rng: &mut Rng, astral: bool) -> String {
     format!("foo(\n  8,\n){s}"),
     format!("outer(a1, zed(1)){s}\nouter(b2, zed(1)){s}"),
     format!("outer(c3, 0, zed(1)){s}"),
+    format!("con(no1){s}"),
+    format!("con(ok2){s}\ncon(no3){s}"),
+    format!("uti(41){s}"),
+    format!("uti(42){s}"),
     if astral { format!("bar(\"😀\", foo(9)){s}") } else { format!("bar(\"中中\", foo(9)){s}") },
   ];
   let n = 2 + rng.below(6);
